@@ -1,7 +1,7 @@
 """C03 — positions are true (DESIGN §2 C03)."""
 from hypothesis import strategies as st
 
-from ..common import BOM, PROVENANCES, advance, crash_signature, digest, grammar, is_zero_width, leaves, short, tree_via
+from ..common import maybe_disturb, BOM, PROVENANCES, advance, crash_signature, digest, grammar, is_zero_width, leaves, short, tree_via
 from ..engine import Outcome, Prop
 from ..gen import text as T
 
@@ -109,6 +109,7 @@ class C03(Prop):
     def check(self, case):
         code, v = case['code'], case['version']
         try:
+            maybe_disturb(grammar(v), code, v)
             m, prov = tree_via(grammar(v), code, case.get('prov', 'fresh'), case.get('how', 0), digest(code, v, 'c03').hex(),
                                lambda mod, text: check_positions(mod, text))
             fail, info = check_positions(m, code)
